@@ -38,120 +38,76 @@ def anchor(chk, prog, suffix):
 
 # -------------------------------------------------------------------------- R1.3 / R12
 def check_intern_or_get(chk, prog, cfg, rule="R1.3"):
-    chk.rule(rule, "Interner::intern_or_get: next_id = vec.len() read before any write; Vacant arm: "
-             "VacantEntry::insert(next_id) and exactly one vec.push(s) (s the argument, map key a clone of it); "
-             "Occupied arm: no write, id from OccupiedEntry::get; returned bool is true exactly on the Vacant arm")
+    chk.rule(rule, "Interner::intern_or_get, decided by abstract interpretation over the two scenarios (element absent / present): absent -> "
+             "exactly one map insertion of next_id = vec.len() (read before the push), exactly one vec.push(s), result (true, id = next_id); "
+             "present -> no write at all, result (false, id = the stored id)")
+    from ..lib import absint
     b = anchor(chk, prog, "interner::Interner::intern_or_get")
     if b is None:
         return
     chk.count("bodies")
     W = b.where
-    S = arg(b, 2)
-    lens = [(bb, t) for bb, t in b.calls_to(VEC + "::len") if self_field(b, b.operand_term(t["args"][0]), "vec")]
-    pushes = [(bb, t) for bb, t in b.calls_to(VEC + "::push") if self_field(b, b.operand_term(t["args"][0]), "vec")]
-    entries = [(bb, t) for bb, t in b.calls_to(BT + "::entry") if self_field(b, b.operand_term(t["args"][0]), "map")]
-    vins = b.calls_to("alloc::collections::btree::map::entry::VacantEntry::insert")
-    ogets = b.calls_to("alloc::collections::btree::map::entry::OccupiedEntry::get")
-    ok = len(lens) == 1 and len(pushes) == 1 and len(entries) == 1 and len(vins) == 1 and len(ogets) == 1
-    chk.expect(ok, rule, "intern_or_get:call-shape", W(), "len=%d push=%d entry=%d VacantEntry::insert=%d OccupiedEntry::get=%d"
-               % (len(lens), len(pushes), len(entries), len(vins), len(ogets)), cfg)
-    if not ok:
-        return
-    len_bb, push_bb, ent_bb, vin_bb, oget_bb = lens[0][0], pushes[0][0], entries[0][0], vins[0][0], ogets[0][0]
 
-    def is_next_id(t):
-        return is_call(t, VEC + "::len", nargs=1) and self_field(b, t[2][0], "vec")
+    def scenario(present):
+        log = []
 
-    # any other mutation of self in this body?
-    muts = [m for m in who.field_mutations(prog, INT, "vec") + who.field_mutations(prog, INT, "map") if m[1] is b]
-    kinds = sorted((m[0], last(m[3]) if m[0] == "call" else "") for m in muts)
-    chk.expect(kinds == [("call", "entry"), ("call", "push")], rule, "intern_or_get:only-entry-and-push-mutate", W(),
-               "mutating uses of self.map/self.vec: %s" % kinds, cfg)
-    chk.expect(b.dominates(len_bb, ent_bb) and b.dominates(len_bb, push_bb) and len_bb not in (ent_bb, push_bb), rule,
-               "intern_or_get:len-read-first", W(len_bb), "len in bb%d, entry bb%d, push bb%d" % (len_bb, ent_bb, push_bb), cfg)
-    # key of entry() is clone(s)
-    ek = b.operand_term(entries[0][1]["args"][1])
-    chk.expect(is_call(ek, "clone", nargs=1) and unref(ek[2][0]) == S, rule, "intern_or_get:key=clone(s)", W(ent_bb), "entry key: %s" % path_str(ek), cfg)
-    pv = b.operand_term(pushes[0][1]["args"][1])
-    chk.expect(pv == S, rule, "intern_or_get:push(s)", W(push_bb), "pushed: %s" % path_str(pv), cfg)
-    vv = b.operand_term(vins[0][1]["args"][1])
-    chk.expect(is_next_id(vv), rule, "intern_or_get:vacant.insert(next_id)", W(vin_bb), "VacantEntry::insert(_, %s)" % path_str(vv), cfg)
-    # the switch on the Entry discriminant
-    ent_t = b.call_term(entries[0][1], bb=ent_bb)
-    sw = None
-    for i, bl in enumerate(b.blocks):
-        t = bl["term"]
-        if t["k"] == "switch":
-            d = b.operand_term(t["discr"])
-            if d[0] == "discr" and unref(d[1]) == ent_t:
-                sw = (i, t)
-    if sw is None:
-        chk.unrecognised(rule, "intern_or_get:match-entry", W(), "no switch on the discriminant of map.entry(..)", cfg)
+        def h(name, args, t):
+            last_ = name.split("::")[-1]
+            if name == VEC + "::len":
+                log.append(("len",))
+                return absint.Sym("LEN")
+            if last_ == "clone" and len(args) == 1:
+                return args[0]
+            if name == BT + "::entry":
+                log.append(("lookup", args[1]))
+                return ("variant", "Occupied", [absint.Sym("occ")], 1) if present else ("variant", "Vacant", [absint.Sym("vac")], 0)
+            if name.endswith("entry::OccupiedEntry::get"):
+                return absint.Sym("K")
+            if name.endswith("entry::VacantEntry::insert"):
+                log.append(("map-insert", args[1]))
+                return absint.Sym("slot")
+            if name == BT + "::get":
+                log.append(("lookup", args[1]))
+                return absint.some(absint.Sym("K")) if present else absint.NONE
+            if name == BT + "::contains_key":
+                log.append(("lookup", args[1]))
+                return present
+            if name == BT + "::insert":
+                log.append(("map-insert", args[2], args[1]))
+                return absint.NONE
+            if name == VEC + "::push":
+                log.append(("push", args[1]))
+                return ("tuple", [])
+            return None
+        r = absint.run(b, 0, {1: absint.Sym("self"), 2: absint.Sym("s")}, call=h, prog=prog)
+        return r, log
+    try:
+        ra, la = scenario(False)
+        rp, lp = scenario(True)
+    except absint.Unrecognised as e:
+        chk.unrecognised(rule, "intern_or_get:interpretable", W(), "cannot interpret intern_or_get abstractly: %s" % e, cfg)
         return
-    # which arm is Vacant: from the downcast names used in the VacantEntry::insert receiver
-    vrecv = b.operand_term(vins[0][1]["args"][0])
-    orecv = unref(b.operand_term(ogets[0][1]["args"][0]))
-    def variant_of(t):
-        t = unref(t)
-        if t[0] == "field" and t[1][0] == "downcast":
-            return t[1][2], t[1][3]
-        return None, None
-    vv_idx, vv_name = variant_of(vrecv)
-    ov_idx, ov_name = variant_of(orecv)
-    arms = {int(a[0]): a[1] for a in sw[1]["arms"]}
-    ok = vv_name == "Vacant" and ov_name == "Occupied" and vv_idx in arms and (ov_idx in arms or True)
-    chk.expect(ok, rule, "intern_or_get:arms", W(sw[0]), "vacant arm: %s/%s occupied arm: %s/%s arms %s" % (vv_idx, vv_name, ov_idx, ov_name, arms), cfg)
-    if not ok:
-        return
-    v_t = arms[vv_idx]
-    o_t = arms.get(ov_idx, sw[1]["otherwise"])
-    chk.expect(b.dominates(v_t, vin_bb) and b.dominates(v_t, push_bb) and not b.dominates(o_t, push_bb) and not b.dominates(o_t, vin_bb)
-               and push_bb not in b.reachable_from(o_t, avoid={sw[0]}) and vin_bb not in b.reachable_from(o_t, avoid={sw[0]}),
-               rule, "intern_or_get:writes-only-on-vacant", W(push_bb), "push bb%d / insert bb%d under vacant target bb%d; occupied target bb%d" % (push_bb, vin_bb, v_t, o_t), cfg)
-    chk.expect(b.dominates(o_t, oget_bb), rule, "intern_or_get:get-on-occupied", W(oget_bb), "", cfg)
-    # result tuple: (inserted, sym_id) per arm
-    rt = b.return_term()
-    ok_ret = False
-    detail = path_str(rt)
-    if rt[0] == "agg" and rt[1] == "tuple" and len(rt[3]) == 2:
-        sym = rt[3][1]
-        if is_adt_agg(sym, SYM):
-            # locate the local holding the (bool, usize) pair: a multiply-defined tuple local
-            pairs = []
-            for l, ds in b.defs().items():
-                sites = b.def_sites(l)
-                if len(sites) == 2 and all(s[1][0] == "agg" and s[1][1] == "tuple" and len(s[1][3]) == 2 for s in sites):
-                    pairs.append(sites)
-            if len(pairs) == 1:
-                good = 0
-                for bb, t in pairs[0]:
-                    flag, idv = t[3]
-                    if b.dominates(v_t, bb) and not b.dominates(o_t, bb):
-                        if flag[0] == "int" and flag[1] == 1 and is_next_id(idv):
-                            good += 1
-                        else:
-                            detail = "vacant arm yields (%s, %s)" % (path_str(flag), path_str(idv))
-                    elif b.dominates(o_t, bb):
-                        idv0 = unref(idv)
-                        if flag[0] == "int" and flag[1] == 0 and is_call(idv0, "OccupiedEntry::get"):
-                            good += 1
-                        else:
-                            detail = "occupied arm yields (%s, %s)" % (path_str(flag), path_str(idv))
-                ok_ret = good == 2
-                # and the returned pieces are projections of that pair through a cast only
-                idt = uncast(agg_field(sym, "id"))
-                flagt = rt[3][0]
-                if ok_ret:
-                    def alts(t):
-                        return set(t[1]) if t[0] == "phi" else {t}
-                    want_ids = {p[1][3][1] for p in pairs[0]}
-                    want_flags = {p[1][3][0] for p in pairs[0]}
-                    ok_ret = alts(idt) == want_ids and alts(flagt) == want_flags
-                    if not ok_ret:
-                        detail = "returned (%s, Symbol{id: %s}) is not the matched pair" % (path_str(flagt), path_str(idt))
-            else:
-                detail = "expected one (bool, id) pair local with two definitions, found %d" % len(pairs)
-    chk.expect(ok_ret, rule, "intern_or_get:result", W(), detail, cfg)
+
+    def result(r):
+        # (bool, Symbol{id, marker})
+        if isinstance(r, tuple) and r[0] == "tuple" and len(r[1]) == 2 and isinstance(r[1][1], tuple) and r[1][1][0] == "variant" and r[1][1][1] == "Symbol":
+            flag = r[1][0]
+            return (bool(flag) if isinstance(flag, (bool, int)) else flag), r[1][1][2][0]
+        return None
+    LEN, K, S_ = absint.Sym("LEN"), absint.Sym("K"), absint.Sym("s")
+    ins = [x for x in la if x[0] == "map-insert"]
+    push = [x for x in la if x[0] == "push"]
+    order_ok = ("len",) in la and (not push or la.index(("len",)) < la.index(push[0])) and (not ins or la.index(("len",)) < la.index(ins[0]))
+    ok_absent = len(ins) == 1 and ins[0][1] == LEN and len(push) == 1 and push[0][1] == S_ and order_ok and result(ra) == (True, LEN)
+    chk.expect(ok_absent, rule, "intern_or_get:absent", W(), "absent element: effects %s, result %s (required: one map insert of LEN, one push(s), (true, LEN))"
+               % ([tuple(getattr(y, "name", y) for y in x) for x in la], result(ra)), cfg)
+    writes_p = [x for x in lp if x[0] in ("map-insert", "push")]
+    ok_present = not writes_p and result(rp) == (False, K)
+    chk.expect(ok_present, rule, "intern_or_get:present", W(), "present element: effects %s, result %s (required: no write, (false, stored id))"
+               % ([tuple(getattr(y, "name", y) for y in x) for x in lp], result(rp)), cfg)
+    # the looked-up / inserted key is the argument
+    keys = [x[1] for x in la + lp if x[0] == "lookup"] + [x[2] for x in ins if len(x) > 2]
+    chk.expect(keys and all(k == S_ for k in keys), rule, "intern_or_get:key=s", W(), "map keys used: %s" % [getattr(k, "name", k) for k in keys], cfg)
 
 
 def check_interner_ops(chk, prog, cfg, rule="R12.1"):
@@ -357,7 +313,8 @@ def check_register_type(chk, prog, cfg, rule="R1.2"):
 ALLOWED_MUT = {
     (REG, "types"): {("call", "scale_info::registry::Registry::register_type", BT + "::insert")},
     (REG, "type_table"): {("call", "scale_info::registry::Registry::intern_type_id", "scale_info::interner::Interner::intern_or_get")},
-    (INT, "map"): {("call", "scale_info::interner::Interner::intern_or_get", BT + "::entry")},
+    (INT, "map"): {("call", "scale_info::interner::Interner::intern_or_get", BT + "::entry"),
+                   ("call", "scale_info::interner::Interner::intern_or_get", BT + "::insert")},
     (INT, "vec"): {("call", "scale_info::interner::Interner::intern_or_get", VEC + "::push")},
     (PRB, "types"): {("call", "scale_info::portable::PortableRegistryBuilder::register_type", "scale_info::interner::Interner::intern_or_get")},
 }
@@ -389,9 +346,10 @@ def check_who_may_write(chk, prog, cfg, rule="R1.1"):
                 where = m[1].where(m[2])
                 chk.fail(rule, "write:%s.%s:%s:%s" % (last(adt), field, last(mir.strip_generics(m[1].path)), m[0]), where,
                          "`%s.%s` is written by a %s in %s (%s)" % (last(adt), field, m[0], m[1].path, path_str(m[3])), cfg)
-        for a in allowed - seen:
+        if not seen:
+            a = sorted(allowed)[0]
             chk.fail(rule, "write:%s.%s:%s:%s" % (last(adt), field, last(a[1]), last(a[2])), None,
-                     "expected append site not found: %s in %s" % (a[2], a[1]), cfg, kind="MISSING-ANCHOR")
+                     "no append site found for %s.%s (expected one of %s)" % (last(adt), field, sorted(x[2] for x in allowed)), cfg, kind="MISSING-ANCHOR")
     for adt, ctors in sorted(ALLOWED_CTOR.items()):
         for (b, bb, rv) in who.aggregates(prog, adt):
             p = mir.strip_generics(b.path)
